@@ -12,7 +12,8 @@ enabled extensions — table rows, `[^1]` and `[^1]: …`, `*[A]: b`, `!!! note`
 fences — and none of it is interpreted.  Fenced blocks with extensions are in `Props/C03Fenced.lean`.
 
 Only property statements live here; the vocabulary is in `Spec/CodeLaw.lean`, the helper lemmas in
-`Lemmas/CodeX.lean`, `Lemmas/CodeXTree.lean`, `Lemmas/CodeXSpan.lean`, `Lemmas/CodeXPara.lean`, `Lemmas/CodeXAtomic.lean`, `Lemmas/CodeXAbbr.lean`.
+`Lemmas/CodeX.lean`, `Lemmas/CodeXTree.lean`, `Lemmas/CodeXSpan.lean`, `Lemmas/CodeXPara.lean`, `Lemmas/CodeXAtomic.lean`, `Lemmas/CodeXAbbr.lean`, `Lemmas/CodeXDoc.lean`, `Lemmas/CodeXDocTree.lean`,
+`Lemmas/CodeXDocConv.lean`.
 
 Why nothing leaks (what the proofs follow):
 * block parser: `CodeBlockProcessor` (80) is asked before table (75), deflist (25), footnote (17), abbr (16); of the
@@ -41,9 +42,12 @@ Part 4.  ANY tree, wherever the code sits (`codeTexts`: the `AtomicString` texts
          `C03X_stash_skips_atomic`.
 Part 5.  an abbreviation DEFINED in the document and occurring in the code: `C03X_block_after_abbr_definition`,
          `C03X_abbr_wraps_outside_code_only`.
+Part 6.  whatever surrounds the code: ANY document of one-line paragraphs and indented code blocks, in any number and
+         order (`CItem`, `codeDocSource`, `codeDocHtml`): `C03X_document`, `C03X_document_inert`, and the instance
+         `C03X_block_between_paragraphs`.
 -/
 import MdVerif.Props.C03
-import MdVerif.Lemmas.CodeXAbbr
+import MdVerif.Lemmas.CodeXDocConv
 
 namespace MdVerif.CodeX
 open Py Block CodeLaw Pipeline PipelineX
@@ -373,5 +377,81 @@ theorem C03X_abbr_wraps_outside_code_only :
     convertX everyExt {} "*[HTML]: Hyper\n\nthe HTML spec `HTML` HTML".toList =
       .ok "<p>the <abbr title=\"Hyper\">HTML</abbr> spec <code>HTML</code> <abbr title=\"Hyper\">HTML</abbr></p>".toList := by
   decide +kernel
+
+/-! ### Part 6: whatever surrounds the code — any document of paragraphs and code blocks -/
+
+/-- **any document of paragraphs and indented code blocks, any extensions.**  The document is a non-empty list of
+    items separated by blank lines, each a one-line paragraph (letters and spaces starting with a letter) or an
+    indented code block of the domain of `C03X_block_top` (`CItem.ok`; the blocks are independent of each other), no
+    two code blocks adjacent (`alternating`: two adjacent ones ARE one block with one more run of lines), not all white
+    space (`hasInk`: automatic as soon as there is a paragraph).  With any subset `x` of the eleven modelled extensions
+    enabled the output is, line by line, `<p>…</p>` for each paragraph and the HTML of `C03X_block_top` for each code
+    block (`codeDocHtml`): every code block comes out character for character (escaped, trailing white space of its
+    runs trimmed), wherever it stands — first, last, between paragraphs — and whatever the other blocks and the
+    paragraphs contain; no paragraph is taken for a definition term, a table header or the target of an attribute
+    list of the code that follows or precedes it. -/
+theorem C03X_document (x : Exts) (tab : Nat) (htab : 0 < tab) (fmt : Ser.Fmt) (items : List CItem) (hne : items ≠ [])
+    (h : items.all CItem.ok = true) (halt : alternating items = true) (hink : hasInk items = true)
+    (hadm : (x.admonition && admNonAscii (codeDocSource tab items ++ ['\n', '\n'])) = false) :
+    convertX x { tab := tab, fmt := fmt } (codeDocSource tab items) = .ok (codeDocHtml items) :=
+  convertX_codeDoc x tab htab fmt items hne (fun it hit => List.all_eq_true.1 h it hit) halt hink hadm
+
+/-- a document that starts with a code block holding a table and a footnote definition, two paragraphs, a code block
+    holding an abbreviation definition for a word of the first paragraph, an admonition and — after three blank lines —
+    a definition with the toc marker, a wiki link and an attribute list, and a last paragraph -/
+def exampleDoc : List CItem :=
+  [.code ["| a | b |".toList, "|---|---|".toList] [(0, ["[^1]: n".toList])], .para "Some HTML text ".toList,
+   .para "More".toList,
+   .code ["*[HTML]: x  ".toList, "!!! note".toList] [(2, [":   d [TOC] [[w]] {: #i }".toList])], .para "The end".toList]
+
+-- the hypotheses on that input, every extension on; the source and the expected output spelt out; what the model
+-- computes (by the kernel, not by the theorem)
+example : 0 < 4 ∧ exampleDoc ≠ [] ∧ exampleDoc.all CItem.ok = true ∧ alternating exampleDoc = true ∧
+    hasInk exampleDoc = true ∧
+    (everyExt.admonition && admNonAscii (codeDocSource 4 exampleDoc ++ ['\n', '\n'])) = false := by
+  refine ⟨by decide, by simp [exampleDoc], ?_, ?_, ?_, ?_⟩ <;> decide +kernel
+example : codeDocSource 4 exampleDoc =
+      "    | a | b |\n    |---|---|\n\n    [^1]: n\n\nSome HTML text \n\nMore\n\n    *[HTML]: x  \n    !!! note\n\n\n\n    :   d [TOC] [[w]] {: #i }\n\nThe end".toList ∧
+    codeDocHtml exampleDoc =
+      "<pre><code>| a | b |\n|---|---|\n\n[^1]: n\n</code></pre>\n<p>Some HTML text </p>\n<p>More</p>\n<pre><code>*[HTML]: x  \n!!! note\n\n\n\n:   d [TOC] [[w]] {: #i }\n</code></pre>\n<p>The end</p>".toList := by
+  decide +kernel
+example : convertX everyExt {}
+      "    | a | b |\n    |---|---|\n\n    [^1]: n\n\nSome HTML text \n\nMore\n\n    *[HTML]: x  \n    !!! note\n\n\n\n    :   d [TOC] [[w]] {: #i }\n\nThe end".toList =
+    .ok "<pre><code>| a | b |\n|---|---|\n\n[^1]: n\n</code></pre>\n<p>Some HTML text </p>\n<p>More</p>\n<pre><code>*[HTML]: x  \n!!! note\n\n\n\n:   d [TOC] [[w]] {: #i }\n</code></pre>\n<p>The end</p>".toList := by
+  decide +kernel
+-- two adjacent code blocks are not in the domain: they are one block
+example : alternating [.code ["a".toList] [], .code ["b".toList] []] = false ∧
+    codeDocSource 4 [.code ["a".toList] [], .code ["b".toList] []] = codeSource 4 ["a".toList] [(0, ["b".toList])] := by
+  decide +kernel
+
+/-- the same as a non-interference statement: on such a document enabling extensions changes nothing -/
+theorem C03X_document_inert (x : Exts) (tab : Nat) (htab : 0 < tab) (fmt : Ser.Fmt) (items : List CItem)
+    (hne : items ≠ []) (h : items.all CItem.ok = true) (halt : alternating items = true) (hink : hasInk items = true)
+    (hadm : (x.admonition && admNonAscii (codeDocSource tab items ++ ['\n', '\n'])) = false) :
+    convertX x { tab := tab, fmt := fmt } (codeDocSource tab items) =
+      Pipeline.convert { tab := tab, fmt := fmt } (codeDocSource tab items) := by
+  rw [C03X_document x tab htab fmt items hne h halt hink hadm, ← convertX_core,
+    C03X_document {} tab htab fmt items hne h halt hink rfl]
+
+/-- **a code block between two paragraphs** (an instance of `C03X_document`): `p`, a blank line, the code block, a
+    blank line, `q` -/
+theorem C03X_block_between_paragraphs (x : Exts) (tab : Nat) (htab : 0 < tab) (fmt : Ser.Fmt) (p q : Str)
+    (first : List Str) (more : List (Nat × List Str))
+    (hp : FencedPipe.isParaLine p = true) (hq : FencedPipe.isParaLine q = true)
+    (h1 : isCodeRun first = true) (h2 : more.all (fun er => isCodeRun er.2) = true)
+    (hadm : (x.admonition &&
+      admNonAscii (p ++ "\n\n".toList ++ codeSource tab first more ++ "\n\n".toList ++ q ++ ['\n', '\n'])) = false) :
+    convertX x { tab := tab, fmt := fmt } (p ++ "\n\n".toList ++ codeSource tab first more ++ "\n\n".toList ++ q) =
+      .ok ("<p>".toList ++ p ++ "</p>\n<pre><code>".toList ++ Code.codeEscape (trimSpec first more) ++
+        "\n</code></pre>\n<p>".toList ++ q ++ "</p>".toList) := by
+  have e := codeDocSource_between tab p q first more "\n\n".toList (by decide)
+  have e2 := codeDocHtml_between p q first more "<p>".toList "</p>\n<pre><code>".toList "\n</code></pre>\n<p>".toList
+    "</p>".toList rfl (by decide) (by decide) rfl
+  have := C03X_document x tab htab fmt [.para p, .code first more, .para q] (by simp)
+    (by simp [CItem.ok, hp, hq, h1, h2]) rfl rfl (by rw [e]; exact hadm)
+  rw [e, e2] at this
+  exact this
+
+example : FencedPipe.isParaLine "Some text".toList = true ∧ FencedPipe.isParaLine " x".toList = false := by decide
 
 end MdVerif.CodeX
